@@ -20,5 +20,5 @@ PLAN = dict(
         dict(name="rt", run="^(TestPropRoundTrip|TestCorpus)$", checks=(1500, 200000), shards=(2, 16), timeout=(300, 3600)),
     ],
     require=[("roundtrip", "variants"), ("roundtrip", "variants-multikey"), ("roundtrip", "write-must-fail"), ("roundtrip", "signatures"),
-             ("roundtrip", "fixpoint-checked"), ("roundtrip", "body-head-w4"), ("roundtrip", "b1"), ("roundtrip", "b2")],
+             ("roundtrip", "fixpoint-checked"), ("roundtrip", "body-head-w4"), ("roundtrip", "b1"), ("roundtrip", "b2"), ("roundtrip", "exchanges>=24"), ("roundtrip", "plain-reader")],
 )
